@@ -19,7 +19,8 @@ BothDone == CDone /\ (cstatus # "exit" \/ QDone)
 ObsAgree == /\ qstatus = "exit"
             /\ qout = cout
             /\ TruncBits(qret, 32) = TruncBits(cret, 32)
-Verdict == IF cstatus # "exit" THEN "skip" ELSE IF ObsAgree THEN "agree" ELSE "DISAGREE"
+Unsupported == qstatus \in {"unsupported-extern-call", "unsupported-aggregate-arg", "unsupported-float-or-vararg"}   \* outside QbeMachine's fragment
+Verdict == IF cstatus # "exit" THEN "skip" ELSE IF Unsupported THEN "unsupported" ELSE IF ObsAgree THEN "agree" ELSE "DISAGREE"
 REmit == BothDone => PrintT("VCASE " \o ToJson([pid |-> cpid, verdict |-> Verdict, cstatus |-> cstatus, qstatus |-> qstatus,
                                                  cout |-> cout, qout |-> qout, cret |-> cret, qret |-> qret]))
 =============================================================================
